@@ -54,7 +54,7 @@ type Case struct {
 	Ops   []Op `json:"ops"`
 }
 
-var paramPool = []string{"", "p1", "p1 p2", `a "b c" X=1`, `NAME="two words" last`, `x=1 'single' "dq \"esc\""`, "tab\tsep", "$HOME `echo hi`", "ünï 日本"}
+var paramPool = []string{"", "p1", "p1 p2", `"a b"`, `"a b" "c d"`, `a "b c" X=1`, `NAME="two words" last`, `x=1 'single' "dq \"esc\""`, "tab\tsep", "$HOME `echo hi`", "ünï 日本"}
 var stepNames = []string{"s1", "s2", "nosuch", ""}
 
 func gen(t *rapid.T) Case {
